@@ -465,6 +465,14 @@ def plan_c07(pid, rng, quick):
                 bs = [first, {"resend": 1, "faults": [["relabel", 0, t]]}, {"resend": 2}]
                 plan.append({"id": "main-as/%s/%s/%d" % (signal, t, variant), "signal": signal, "opts": {}, "batches": bs,
                              "props": [], "mode": 0, "nowire": True})
+        # the same with a BARE main record (items without attributes, events, links or data-point children: the optional `id`
+        # column is absent altogether, so nothing in the record contradicts another label by its type)
+        for t in ALL_TYPES[signal][1:] + ["UNKNOWN"]:
+            for prefix in (1, 2):
+                first = {"gen": "parents", "n": 3, "nres": 1, "with": "plain", "nodump": False}
+                bs = [first] + [{"resend": 1} for _ in range(prefix - 1)] + [{"resend": 1, "faults": [["relabel", 0, t]]}, {"resend": 2}]
+                plan.append({"id": "bare-main-as/%s/%s/p%d" % (signal, t, prefix), "signal": signal, "opts": {}, "batches": bs,
+                             "props": [], "mode": 0, "nowire": True})
         # healthy streams: a well-formed batch on a healthy stream is decoded completely
         for i in range(20 if quick else 1200):
             plan.append(otap.rand_stream(rng, "healthy/%s/%d" % (signal, i), signal, []))
